@@ -72,7 +72,9 @@ CLAIMS = {
     "C08": ("Verus: the task bodies interval_task, timer_task, item_task, result_task; interval/timer actual_subscribe "
             "schedule one repeating / one-shot task with the right period, delay and arguments; interval_at/timer_at compute "
             "the remaining time; from_future / from_future_result actual_subscribe (one undelayed task that hands the future's "
-            "value to item_task / result_task).  Kani: timer counts its delay from subscription however late it is subscribed "
+            "value to item_task / result_task); the drivers StreamObserverFuture::poll / TryStreamObserverFuture::poll (unbounded: every item the "
+            "stream yields during a poll is relayed in order, Pending only when the stream itself was Pending (waker registered), done exactly at "
+            "the stream's end / first Err with the matching terminal; termination of the loop not claimed).  Kani: timer counts its delay from subscription however late it is subscribed "
             "(virtual clock, recording scheduler; loop-free); (bounded:) RepeatTask::poll on a virtual clock (consecutive sequence numbers, one fresh "
             "timer per accepted tick, never runs on a pending timer, retires when the task declines), FutureTask::poll, "
             "from_stream / from_stream_result drivers over scripted streams.", "§4 C08",
@@ -102,7 +104,9 @@ CLAIMS = {
             "independence of clones is an ownership argument (no operator value holds a shared cell: a change that moves a "
             "cell into the operator value changes a field type and ends undecided); DistinctKeyOp::actual_subscribe (Verus ICE)."),
     "C14": ("Verus with an assumed channel/atomic contract: what the to_future / to_stream / complete_status observers put on "
-            "the channel or flag for every source history (store before wake); CompleteStatus::{is_closed,is_completed,error_occur}.  "
+            "the channel or flag for every source history (store before wake); CompleteStatus::{is_closed,is_completed,error_occur}; the "
+            "consuming side ObservableStream::poll_next / ObservableFuture::poll over an assumed receiver contract (no Pending of its own: a waker "
+            "is registered for every Pending; messages handed on unchanged).  "
             "Kani on the REAL futures channel / "
             "AtomicWaker: to_future resolves to the documented outcome, to_stream yields every item and the error and then "
             "ends (bounded: 2 items), StatusFuture::poll never returns Pending with the flag set and no wake-up delivered "
